@@ -78,7 +78,7 @@ def gen_ops(ctx):
                 for (x, y, dx, dy) in rs:                                     # EVERY sub-rectangle
                     add("crop %s %s %d %d %d %d %s" % (fmt, dst, x, y, dx, dy, hx))
                 add("paths %s %s %s" % (fmt, dst, hx))
-                if dst != "gray1":
+                if not dst.startswith("gray1"):
                     rs = rects(w, h); pick = [(0, 0, 0, 0), rs[0], rs[-1], r.choice(rs), r.choice(rs)]
                     if fmt == "bmprle": pick = [(0, 0, 0, 0)]      # rows the RLE reader leaves unwritten would show uninitialised memory
                     for k in KINDS:
@@ -97,6 +97,16 @@ def gen_ops(ctx):
                     x, y, dx, dy = r.choice(rs); ops.append("crop %s %s %d %d %d %d %s" % (fmt, dst, x, y, dx, dy, hx)); tags[name] = tags.get(name, 0) + 1
                 ops.append("paths %s %s %s" % (fmt, dst, hx))
     return ops, tags
+
+def mono_variant(ctx):
+    """does the tree under test carry the proposed pnm gray1 fix (reader / scanline reader mirror instead of swapping half bytes)?"""
+    def src(rel):
+        try: return open(os.path.join(ctx.include, "boost/gil/extension/io/pnm/detail", rel)).read()
+        except OSError: return ""
+    r, sc = src("read.hpp"), src("scanline_read.hpp")
+    rf = "swap_half_bytes" not in r[r.find("void read_bin_data"):]
+    sf = "_swap_half_bytes( dst" not in sc
+    return "gray1" + ("-" if rf or sf else "") + ("r" if rf else "") + ("s" if sf else "")
 
 def route(op):
     f = op.split()[1]
@@ -126,6 +136,10 @@ def run(ctx, ops=None):
     if "h1" in bins: bins["h1r"] = bins["h1"]      # same binary, own process: the forking RLE ops run beside the others
     tags = {}
     if ops is None: ops, tags = gen_ops(ctx)
+    mono = mono_variant(ctx)
+    if mono != "gray1":
+        ctx.notes.append("tree under test carries the proposed pnm gray1 fix: model variant %s" % mono)
+        ops = [o.replace(" pnm gray1 ", " pnm %s " % mono, 1) for o in ops]
     impl = run_routed(ctx, bins, route, ops, args=(ctx.scratch,))
     impl, model = correspond_with(ctx, "drv_C13", ops, impl)
     distinct = len({o for o in ops if nontrivial(o)})
